@@ -321,6 +321,9 @@ pub fn run_job<P: Prog>(job: &Job, out: &mut dyn Write) {
             }
          },
       }
+      // progress marker for the driver's watchdog: a long job is alive as long as repetitions complete
+      writeln!(out, "TICK {}", rep).unwrap();
+      let _ = out.flush();
    }
    stop.store(true, Ordering::Relaxed);
    for s in spinners {
